@@ -174,16 +174,26 @@ func refEnd(m *Model, c *Column) string {
 	return colClass(c)
 }
 
-// refClass describes a reference column: what its chain of references ends in and whether
-// the table it points at existed in the old version.
+// refClass describes a reference column: what its chain of references ends in and what
+// that final column was in the old version (new-table / added / was-<class>).
 func refClass(old, new *Model, nc *Column) string {
-	s := "ref>" + refEnd(new, nc)
-	if old != nil {
-		if old.Table(nc.RefTable) == nil {
-			s += ":to-new-table"
-		} else {
-			s += ":to-kept-table"
-		}
+	t, c := (*Table)(nil), nc
+	for hops := 0; c != nil && c.Kind == "ref" && hops < 64; hops++ {
+		t = new.Table(c.RefTable)
+		c = t.Col(c.RefCol)
+	}
+	s := "ref>" + colClass(c)
+	if old == nil || t == nil || c == nil {
+		return s
+	}
+	ot := old.Table(t.Name)
+	switch {
+	case ot == nil:
+		s += ":end-new-table"
+	case ot.Col(c.Name) == nil:
+		s += ":end-added"
+	default:
+		s += ":end-was-" + colClass(ot.Col(c.Name))
 	}
 	return s
 }
@@ -622,16 +632,18 @@ func checkDelta(res *fw.Result, old, new *built, cat *Catalog, step string, hist
 		switch {
 		case e.Kind == "column-referenced":
 			parts := strings.SplitN(e.Other, ".", 2)
-			if n.Table(parts[0]) == nil {
-				if o.Table(parts[0]) == nil {
-					class = "referrer-in-table-of-earlier-version"
-				} else {
-					class = "referrer-in-removed-table"
-				}
+			if o.Table(parts[0]) == nil {
+				// the referencing table is in the catalog but not in the old version
+				class = "referrer-in-table-of-earlier-version"
+			} else if n.Table(parts[0]) == nil {
+				class = "referrer-in-removed-table"
 			} else {
 				class = "referrer-" + colChange(o, n, parts[0], parts[1])
 			}
 			class += "/target-" + colChange(o, n, e.Table, e.Col)
+		case e.Kind == "fk-type-mismatch" || e.Kind == "unknown-ref-column" || e.Kind == "unknown-ref-table":
+			parts := strings.SplitN(e.Other+".", ".", 3)
+			class = "target-" + colChange(o, n, parts[0], parts[1]) + "/" + colChange(o, n, e.Table, e.Col)
 		case e.Kind == "trailing-comma":
 			class = "new-" + tableShape(n.Table(e.Table))
 		case e.Kind == "table-exists":
@@ -651,7 +663,7 @@ func checkDelta(res *fw.Result, old, new *built, cat *Catalog, step string, hist
 		default:
 			class = keyChange(o, n, e.Table)
 		}
-		p.add("delta|exec:"+e.Kind+"|"+shortForm(e.Form)+"|"+class, e.String())
+		p.add("delta|exec:"+e.Kind+"|"+class+"|"+shortForm(e.Form), e.String())
 	}
 	suppressed := 0
 	for _, d := range diffs {
